@@ -176,8 +176,8 @@ theorem stripped_exp_neg_iff (o : Decimal) (s : U128 × Int16) (j : Nat) (hs : S
 
 /-! ## the specification on these rungs -/
 
-theorem psFin_zero (xn : Bool) (xe : Int) (yn : Bool) (yc : Nat) (ye : Int) :
-    psFin (.fin xn 0 xe) yn yc ye =
+theorem psFin_zero (m : Mode) (xn : Bool) (xe : Int) (yn : Bool) (yc : Nat) (ye : Int) :
+    psFin m (.fin xn 0 xe) yn yc ye =
       some (if yn = true then .inf (xn && (intParity yc ye == some true))
             else .fin (xn && (intParity yc ye == some true)) 0 0) := by
   unfold psFin
@@ -186,8 +186,8 @@ theorem psFin_zero (xn : Bool) (xe : Int) (yn : Bool) (yc : Nat) (ye : Int) :
   · simp
   · cases b <;> simp
 
-theorem psFin_inf (xn : Bool) (yn : Bool) (yc : Nat) (ye : Int) :
-    psFin (.inf xn) yn yc ye =
+theorem psFin_inf (m : Mode) (xn : Bool) (yn : Bool) (yc : Nat) (ye : Int) :
+    psFin m (.inf xn) yn yc ye =
       some (if yn = true then .fin (xn && (intParity yc ye == some true)) 0 0
             else .inf (xn && (intParity yc ye == some true))) := by
   unfold psFin
@@ -195,9 +195,9 @@ theorem psFin_inf (xn : Bool) (yn : Bool) (yc : Nat) (ye : Int) :
   · simp
   · cases b <;> simp
 
-theorem psFin_negnan (xc : Nat) (xe : Int) (yn : Bool) (yc : Nat) (ye : Int) (hx : xc ≠ 0)
+theorem psFin_negnan (m : Mode) (xc : Nat) (xe : Int) (yn : Bool) (yc : Nat) (ye : Int) (hx : xc ≠ 0)
     (hn : (intParity yc ye).isNone = true) :
-    psFin (.fin true xc xe) yn yc ye = some (invalid2 .pow (.fin true xc xe) (.fin yn yc ye)) := by
+    psFin m (.fin true xc xe) yn yc ye = some (invalid2 .pow (.fin true xc xe) (.fin yn yc ye)) := by
   unfold psFin
   have : (xc == 0) = false := by simpa using hx
   simp only [this, if_false, Bool.false_eq_true, hn, Bool.true_and, if_true]
@@ -284,6 +284,6 @@ theorem case_negnan (d o : Decimal) (rm : UInt8) (m : Mode)
   · rw [interp_pownan _ (cf d) (ex d) (cf o) (ex o) hdc hoc, Enc.interp_decompose d a3,
       Enc.interp_decompose o h3, hneg]
     have := absOne_false_mag o h1 h3
-    rw [psLate_fin _ _ _ _ _ this, psFin_negnan _ _ _ _ _ hdc hni]
+    rw [psLate_fin _ _ _ _ _ this, psFin_negnan _ _ _ _ _ _ hdc hni]
 
 end PowPf
